@@ -34,6 +34,13 @@ round 2      : forms held by the quantizer rebuilt through a DICTIONARY route vs
                every numeric option as size-1 / per-channel array, list, tuple (forms stream); stream
                `signature`: parameters of the LIVE constructor signatures that the lattice does not know
                are swept with guessed typed values and judged model-free.
+round 3      : every configuration on which `_set_trainable_parameter()` fires (alpha None), aimed at the
+               options the step rewrites (read from the model), handed to REAL layers through seven public
+               wrappers (+ the layer's own get_config / from_config as fourth route), called before and after;
+               plain assignment to the declared-modifiable attributes of quantized_linear (model `StepX.assign`);
+               call-time derived quantities (`get_clip_bounds()`, `data_type_scale`, ...) of the used and of
+               every rebuilt quantized_linear vs the model's `linDerived`; clause `same_reporters` (max / min /
+               range / get_clip_bounds / reporter properties of rebuilt vs used original, all classes).
 """
 import inspect
 import os
@@ -322,29 +329,86 @@ HISTORIES = [
     ("uqf", [("update_qnoise", 0.25)], {}),
     ("variables_call_uqf", [("call", 0), ("update_qnoise", 0.5)], {"use_variables": True}),
     ("uqf_tensor", [("update_qnoise", "tensor:0.25")], {}),
+    # round 3: the quantizer is handed to a LAYER through the public constructor (which calls
+    # `_set_trainable_parameter()` on the very object); re-configured through the attributes the
+    # class declares modifiable (model: `assignable` / `StepX.assign`)
+    ("adopt", [("adopt",)], {}),
+    ("call_adopt_call", [("call", 0), ("adopt",), ("call", 2)], {}),
+    ("assign_sym", [("assign", "symmetric", "flip")], {}),
+    ("stp_assign_sym", [("set_trainable",), ("assign", "symmetric", "flip")], {}),
+    ("assign_qnoise_stp", [("assign", "qnoise_factor", 0.25), ("set_trainable",)], {}),
 ]
+# histories run on the configurations on which `_set_trainable_parameter()` fires (L.trainable_cells)
+SENSITIVE = ("stp", "adopt", "call_adopt_call", "stp_assign_sym")
+
+
+def _obs_first_diff_xs(xs, oa, ob):
+  """first differing observation, with the probe value it belongs to"""
+  for k in oa:
+    if oa[k] != ob.get(k):
+      try:
+        x = xs[int(k.split("_")[1])]
+      except Exception:  # pylint: disable=broad-except
+        x = xs[0]
+      return _obs_first_diff(x, {k: oa[k]}, {k: ob.get(k)})
+  return {}
 
 
 def _history_stream(run, tier, Q, tf, K, reg, model_cls, rng, xs):
   """histories on ONE object before get_config(): called (different ranks), handed to a layer
   (`_set_trainable_parameter`), re-configured through `update_qnoise_factor`, variables built"""
   lines, metas = [], []
+  # which options `_set_trainable_parameter()` rewrites besides alpha, per class (model)
+  rw_out = core.run_driver("C09", [{"op": "history", "cls": n, "kw": [], "steps": [{"op": "set_trainable"}]}
+                                   for n in reg])
+  rewritten = {}
+  for n, o in zip(reg, rw_out):
+    if "err" not in o.get("construct", {}):
+      b, a = dict(map(tuple, map(_kv, o["construct"]["ok"]))), dict(map(tuple, map(_kv, o["after"]["ok"])))
+      rewritten[n] = [k for k in b if b[k] != a.get(k) and k != "alpha"]
+  run.extra["options_rewritten_by_set_trainable"] = rewritten
   for name, cls in reg.items():
     names = [p[0] for p in model_cls[name]["params"]]
     lat = L.LATTICE[name]
     cands = [{}] + [dict(c) for c in lat["contexts"] if c]
     singles = [kw for kind, kw in L.configs(name, "quick", np.random.default_rng(0)) if kind == "single"]
-    n_s = 4 if tier == "quick" else 10
+    n_s = 3 if tier == "quick" else 10
     idx = sorted(rng.choice(len(singles), size=min(n_s, len(singles)), replace=False).tolist())
     cands += [singles[i] for i in idx]
     if name in L.PO2_CLASSES:
       cands += [{"bits": 1, "max_value": 2}, {"bits": 2, "max_value": 2, "quadratic_approximation": True}]
     stochastic = name in STOCHASTIC
+    assignable = model_cls[name].get("assignable", [])
+    # round 3: every configuration on which `_set_trainable_parameter()` fires, aimed at the
+    # options the step rewrites (read from the model: fields of the default instance it changes)
+    n_base = len(cands)
+    if L.stp_overridden(cls):
+      have = {L._key(c) for c in cands}  # pylint: disable=protected-access
+      for ci, (kind, kwc) in enumerate(L.trainable_cells(name, rewritten.get(name, []))):
+        if tier == "quick" and kind == "A" and not rewritten.get(name) and ci % 2:
+          continue     # the step rewrites alpha only: every second single-option cell in quick
+        if L._key(kwc) not in have:  # pylint: disable=protected-access
+          have.add(L._key(kwc))  # pylint: disable=protected-access
+          cands.append(dict(kwc, __cell=kind))
     for j, kw0 in enumerate(cands):
+      kw0 = dict(kw0)
+      cell = kw0.pop("__cell", None)
       for hi, (hname, steps, extra) in enumerate(HISTORIES):
-        if tier == "quick" and j > 0 and (hi + j) % 2:
+        if cell is not None:
+          # kind B (the step rewrites an option of the cell): every sensitive history;
+          # kind A: handed to a layer (the wrapper rotates), every third one also the bare step
+          # kind A: handed to a layer; kind B: the bare step, called / handed to a layer / called
+          # again (a value cached at the FIRST CALL is stale as well), step then re-assignment
+          if hname not in SENSITIVE or (cell == "A" and tier == "quick" and hname != "adopt") or (
+              cell == "B" and hname == "adopt"):
+            continue
+        elif tier == "quick" and j > 0 and hname in ("adopt", "call_adopt_call", "assign_qnoise_stp"):
+          continue     # (the single-option cells below are all handed to a layer)
+        elif tier == "quick" and j > 0 and (hi + j) % 2:
           continue     # quick: the default instance gets every history, the others every second one
         if any(k not in names for k in extra):
+          continue
+        if any(st[0] == "assign" and st[1] not in assignable for st in steps):
           continue
         if any(st[0] == "update_qnoise" for st in steps) and "qnoise_factor" not in names:
           continue
@@ -356,9 +420,24 @@ def _history_stream(run, tier, Q, tf, K, reg, model_cls, rng, xs):
         except Exception:  # pylint: disable=broad-except
           continue
         msteps, ok = [], True
+        layer = None
         for st in steps:
           try:
-            if st[0] == "call":
+            if st[0] == "adopt":
+              wname, layer_obj, held = L.adopt(j + hi, q)
+              if held(layer_obj) is not q:
+                run.count("adopt_layer_holds_a_copy")
+                ok = False
+                break
+              layer = (wname, layer_obj, held)
+              msteps.append({"op": "set_trainable"})
+            elif st[0] == "assign":
+              v = st[2]
+              if v == "flip":
+                v = 0 if getattr(q, st[1]) else 1
+              setattr(q, st[1], v)
+              msteps.append({"op": "assign", "k": st[1], "v": L.enc(v)})
+            elif st[0] == "call":
               y = q(tf.constant(xs[st[1]]))
               if hasattr(y, "numpy"):
                 y.numpy()
@@ -379,8 +458,12 @@ def _history_stream(run, tier, Q, tf, K, reg, model_cls, rng, xs):
           run.count("history_step_raises")
           continue
         key = {"class": name, "kw": L.enc_env(kw), "history": hname}
+        if layer is not None:
+          key["layer"] = layer[0]
         run.case(("history", name, hname, repr(L.enc_env(kw))), nontrivial=True)
         run.count("history_" + hname)
+        if cell is not None:
+          run.count("history_trainable_cell_" + cell)
         rec = {"key": key, "name": name, "hname": hname, "kw": kw}
         rec["attrs"] = L.attrs(q, names)
         rec["hidden"] = _stable_hidden(q, names)
@@ -399,6 +482,8 @@ def _history_stream(run, tier, Q, tf, K, reg, model_cls, rng, xs):
         if _raises(o1):
           run.count("history_original_call_raises")
           continue
+        rec["reporters"] = L.reporters(q)
+        rec["derived"] = L.lin_derived(q)
         if hname == "call2":
           # the k-th use of an object equals the first use of a fresh twin
           run.compared += 1
@@ -408,6 +493,11 @@ def _history_stream(run, tier, Q, tf, K, reg, model_cls, rng, xs):
                         {"kw": L.enc_env(kw), "differs": sorted(L.obs_diff(o1, ot)),
                          "replay": "q=%s(**kw); q(x4); q(x2); q(x) vs %s(**kw)(x)" % (name, name)}, mirrored=False)
         cfg, routes = _routes(Q, tf, cls, name, q)
+        if layer is not None:
+          # fourth route: the layer's own configuration round trip rebuilds the held quantizer
+          routes = routes + [("layer", lambda lo=layer: lo[2](type(lo[1]).from_config(lo[1].get_config())))]
+          if cell == "A" and tier == "quick":
+            routes = [rt for rt in routes if rt[0] in ("from_config", "layer")]
         rec["routes"] = {}
         for route, make in routes:
           try:
@@ -424,6 +514,10 @@ def _history_stream(run, tier, Q, tf, K, reg, model_cls, rng, xs):
             r["forms"] = [[k, L.form_of2(getattr(q2, k, None))] for k in names]
             o2 = L.observe(q2, hx, phases, grad=grad)
             r["kinds"] = sorted(L.obs_diff(o1, o2))
+            if r["kinds"]:
+              r["first_difference"] = _obs_first_diff_xs(hx, o1, o2)
+            r["reporters"] = L.reporters(q2)
+            r["derived"] = L.lin_derived(q2)
           except Exception as e:  # pylint: disable=broad-except
             r = {"err": L.err_tag(e), "msg": str(e)[:160]}
           rec["routes"][route] = r
@@ -471,13 +565,23 @@ def _judge_history(run, rec, o, keras_model, stream):
                  {k: d0.get(k) for k in sorted(set(d0) | set(d1)) if d0.get(k) != d1.get(k)},
                  {k: d1.get(k) for k in sorted(set(d0) | set(d1)) if d0.get(k) != d1.get(k)})
     mirrored = False
+  # call-time derived quantities of the USED object (quantized_linear: clip range, data-type scale,
+  # sign / auto-alpha switches) vs the model's linDerived on the instance after the history
+  if o is not None and rec.get("derived") is not None and o.get("derived") is not None:
+    run.compared += 1
+    if rec["derived"] != o["derived"]:
+      run.disagree(stream + ".derived", key, rec["derived"], o["derived"])
+      mirrored = False
   kr = rec["keras_real"]
   run.compared += 1
   if kr["kind"] != keras_model["kind"] or sorted(kr.get("keys", [])) != sorted(keras_model.get("keys", [])):
     run.disagree(stream + ".keras_outcome", key, kr, keras_model)
     mirrored = False
   run.count("%s_keras_%s" % (stream, kr["kind"]))
-  for route, mkey in (("from_config", "from_config"), ("get_quantizer", "get_quantizer"), ("keras", "from_config")):
+  for route, mkey in (("from_config", "from_config"), ("get_quantizer", "get_quantizer"), ("keras", "from_config"),
+                      ("layer", "from_config")):
+    if route not in rec["routes"]:
+      continue
     r, m = rec["routes"][route], (o[mkey] if o is not None else None)
     run.compared += 1
     cause = None
@@ -545,6 +649,22 @@ def _judge_history(run, rec, o, keras_model, stream):
       bad = sorted(a for a in set(d0) | set(d2) if d0.get(a) != d2.get(a))
       run.violate("same_hidden_state", dict(k, attr="+".join(bad)),
                   {"kw": key["kw"], "route": route, **tag, "original": rec["hidden"], "rebuilt": r["hidden"]},
+                  mirrored=mirrored)
+    if (o is not None and r.get("derived") is not None and o.get("derived_rebuilt") is not None and not cause
+        and r["derived"] != o["derived_rebuilt"]):
+      run.disagree("%s.route.%s.derived" % (stream, route), key, r["derived"], o["derived_rebuilt"])
+      mirrored = False
+    if "reporters" in r and "reporters" in rec and r["reporters"] != rec["reporters"] and not cause:
+      # the public reporters (max / min / range / get_clip_bounds / data_type_scale ...) of the rebuilt
+      # quantizer answer what those of the used original answer (both after the same last call)
+      bad = sorted(a for a in set(r["reporters"]) | set(rec["reporters"])
+                   if r["reporters"].get(a) != rec["reporters"].get(a))
+      run.count("%s_reporters_differ_%s" % (stream, name))
+      run.violate("same_reporters", dict(k, reporter="+".join(bad)),
+                  {"kw": key["kw"], "route": route, **tag,
+                   "original": {a: rec["reporters"].get(a) for a in bad},
+                   "rebuilt": {a: r["reporters"].get(a) for a in bad},
+                   "replay": "q=%s(**kw); <%s>; q2=<rebuild by %s>; q2.%s vs q.%s" % (name, tag, route, bad[0], bad[0])},
                   mirrored=mirrored)
     if r["config"] != rec["config"] and not cause:
       run.violate("config_fixed_point", dict(k, field="+".join(_cfg_diff(rec["config"], r["config"]))),
@@ -770,7 +890,7 @@ def run(run: core.Run, tier: str):
   rng = np.random.default_rng(run.seed)
   run.extra["rule"] = (
       "per class: default, every option value under every context of qkv.qlattice.LATTICE, plus "
-      "option pairs (36 seeded pairs in quick, all pairs + 60 triples in thorough), plus the fixed "
+      "option pairs (30 of 36 seeded pairs in quick since round 3, all pairs + 60 triples in thorough), plus the fixed "
       "list-valued / formerly-omitted option combinations of EXTRA; non-trivial = "
       "distinct (class, keyword set); probes = fixed 4x6 tensor with distinct rows/columns and "
       "out-of-range values, a seeded 4x6 and a seeded rank-4 tensor; both learning phases for "
@@ -780,8 +900,14 @@ def run(run: core.Run, tier: str):
       "reads the sigmoid switch x 6 ordered mode pairs x 3 routes x called under both modes (others: "
       "default configuration, one pair), image data format both orders (<= 2 configurations per class in "
       "quick); history stream = default + contexts + 4 seeded single-option configurations per class x "
-      "{call2, stp, call_stp_call, uqf, variables_call_uqf, uqf_tensor} (every second one for non-default "
-      "configurations in quick); forms stream = first value of every numeric/boolean option x numpy "
+      "{call2, stp, call_stp_call, uqf, variables_call_uqf, uqf_tensor, adopt (handed to a real layer: QDense / "
+      "QConv2D / QDepthwiseConv2D / QSeparableConv2D / QConv1D / QSimpleRNN / QBatchNormalization in rotation, "
+      "+ the layer's own get_config/from_config as fourth route), call_adopt_call, assign_sym, stp_assign_sym, "
+      "assign_qnoise_stp (declared-modifiable attributes of quantized_linear)} (every second one for non-default "
+      "configurations in quick; 3 seeded singles instead of 4 since round 3) + round 3: every configuration on "
+      "which _set_trainable_parameter() fires (alpha None): all single-option cells of the default context "
+      "(adopt; routes from_config + layer in quick) and every context without alpha x every lattice value and 0 / 1 "
+      "of every option the step rewrites (model) x {stp, call_adopt_call, stp_assign_sym}, all routes; forms stream = first value of every numeric/boolean option x numpy "
       "scalar (alternating widths in quick), 0-d ndarray, tf.constant, int/float substitutions; array forms = "
       "alpha of every class that has it x {ndarray[1], ndarray[6], ndarray[1,6] float64, list[1], tuple[6]}, "
       "every other numeric option x 3 of these 5 (alternating; all in thorough), judged only if the original "
@@ -858,8 +984,15 @@ def run(run: core.Run, tier: str):
       continue
     names = [p[0] for p in model_cls[name]["params"]]
     xs_cls = xs_base + [L.po2_probe()] if name in L.PO2_CLASSES else xs_base
+    n_pair = 0
     for kind, kw in (L.configs(name, tier, rng) + [("extra", kw) for kw in EXTRA.get(name, [])]
                      + [("boundary", kw) for kw in L.po2_boundary(name, tier)]):
+      if kind == "pair" and tier == "quick":
+        # round 3 budget trim: 30 of the 36 seeded option pairs per class (pays for the
+        # layer-adoption cells of the history stream)
+        n_pair += 1
+        if n_pair % 6 == 0:
+          continue
       if kind == "boundary" and any(r["class"] == name and L.enc_env(r["kw"]) == L.enc_env(kw) for r in recs):
         continue
       rec = {"class": name, "kw": kw, "kind": kind}
